@@ -16,7 +16,7 @@ use crate::rng::hash_str;
 use crate::Ctx;
 
 /// (kind, loop body creating garbage of that kind; `i` is the loop counter)
-pub const KINDS: [(&str, &str); 15] = [
+pub const KINDS: [(&str, &str); 19] = [
     ("pairs", "(cons i (list i i))"),
     ("vectors", "(vector i (make-vector 6 i))"),
     ("strings", "(string-append \"ab\" (number->string i) (make-string 3 #\\z))"),
@@ -31,6 +31,11 @@ pub const KINDS: [(&str, &str); 15] = [
     ("lambdas-with-fresh-parameter-names-compiled-by-eval", "((eval (list 'lambda (list (string->symbol (string-append \"v\" (number->string i)))) (string->symbol (string-append \"v\" (number->string i))))) i)"),
     ("bignums", "(* 123456789012345678901234567890 (+ i 1))"),
     ("promises", "(force (delay (list i)))"),
+    // one instruction allocating many cells: more than one cell per executed instruction
+    ("bulk:vector->list", "(vector->list (make-vector 64 i))"),
+    ("bulk:string->list", "(string->list (make-string 64 #\\a))"),
+    ("bulk:list->vector-of-vector->list", "(list->vector (vector->list (make-vector 48 i)))"),
+    ("bulk:append-and-list-copy", "(append (vector->list (make-vector 40 i)) (list-copy (vector->list (make-vector 24 i))))"),
     ("mixed", "(list (vector i) (lambda () i) (number->string i) (call/cc (lambda (k) k)) (string->symbol (string-append \"m\" (number->string (remainder i 50)))))"),
 ];
 
